@@ -274,6 +274,20 @@ class _Subst(ast.NodeTransformer):
         return n
 
 
+def _namedtuple_fields(program, name):
+    """the field names of `name = namedtuple("..", [..names..])` defined at module level in the package, or None"""
+    for m in program.modules.values():
+        for st in m.tree.body:
+            if isinstance(st, ast.Assign) and len(st.targets) == 1 and isinstance(st.targets[0], ast.Name) and st.targets[0].id == name \
+                    and isinstance(st.value, ast.Call) and call_name(st.value) == "namedtuple" and len(st.value.args) == 2:
+                f = st.value.args[1]
+                if isinstance(f, (ast.List, ast.Tuple)) and all(isinstance(e, ast.Constant) and isinstance(e.value, str) for e in f.elts):
+                    return [e.value for e in f.elts]
+                if isinstance(f, ast.Constant) and isinstance(f.value, str):
+                    return f.value.replace(",", " ").split()
+    return None
+
+
 def record_constructions(program, view, fn, ctor="DataRecord", _depth=0):
     """the `ctor(...)` constructions performed by fn, directly or through a newly extracted helper that forwards keyword arguments
     (`helper(individual, a=..., b=...)` -> `ctor(x=..., **fields)`): -> list of (location node, {field: value expr in fn's own terms})"""
@@ -307,6 +321,42 @@ def record_constructions(program, view, fn, ctor="DataRecord", _depth=0):
                 mapping.setdefault(pn, d)
             kwname = h.args.kwarg.arg if h.args.kwarg else None
             for c in ast.walk(h):
+                if isinstance(c, ast.Call) and call_name(c) == ctor and len(c.keywords) == 1 and c.keywords[0].arg is None and isinstance(c.keywords[0].value, ast.Name) \
+                        and not c.args and c.keywords[0].value.id != kwname:
+                    # ctor(**D) with D = dict.fromkeys(ctor._fields, DEFAULT) ; D.update(a=.., b=..) ; D.update(<forwarded keywords>), in that order, straight-line
+                    dn = c.keywords[0].value.id
+                    body_ = [s_ for s_ in h.body if not (isinstance(s_, ast.Expr) and isinstance(s_.value, ast.Constant))]
+                    fields, okd, default = {}, False, None
+                    for s_ in body_:
+                        if isinstance(s_, ast.Assign) and len(s_.targets) == 1 and isinstance(s_.targets[0], ast.Name) and s_.targets[0].id == dn:
+                            v_ = s_.value
+                            if isinstance(v_, ast.Call) and unparse(v_.func) == "dict.fromkeys" and len(v_.args) == 2 and unparse(v_.args[0]) == ctor + "._fields":
+                                default, okd = v_.args[1], True
+                                fields = {}
+                            else:
+                                okd = False
+                        elif isinstance(s_, ast.Expr) and isinstance(s_.value, ast.Call) and isinstance(s_.value.func, ast.Attribute) and unparse(s_.value.func.value) == dn \
+                                and s_.value.func.attr == "update" and okd:
+                            u_ = s_.value
+                            if len(u_.args) == 1 and isinstance(u_.args[0], ast.Name) and u_.args[0].id == kwname and not u_.keywords:
+                                fields.update(extra)
+                            elif not u_.args and all(k.arg is not None for k in u_.keywords):
+                                for k in u_.keywords:
+                                    v = _Subst(mapping).visit(clone(k.value))
+                                    ast.fix_missing_locations(v)
+                                    fields[k.arg] = v
+                            else:
+                                okd = False
+                        elif any(isinstance(y, ast.Name) and y.id == dn and isinstance(y.ctx, (ast.Store, ast.Del)) for y in ast.walk(s_)) or \
+                                any(isinstance(y, ast.Subscript) and unparse(y.value) == dn and isinstance(y.ctx, (ast.Store, ast.Del)) for y in ast.walk(s_)):
+                            okd = False
+                    if okd and default is not None:
+                        names = _namedtuple_fields(program, ctor)
+                        if names:
+                            for nm in names:
+                                fields.setdefault(nm, clone(default))
+                            out.append((n, fields))
+                    continue
                 if isinstance(c, ast.Call) and call_name(c) == ctor:
                     fields = {}
                     fwd = False
